@@ -111,3 +111,46 @@ type Perm struct {
 	CreatedAt  time.Time
 	UpdatedAt  time.Time
 }
+
+// ---- eager loading with composite keys (C11)
+
+type Folder struct {
+	Doc   int    `gorm:"primaryKey;autoIncrement:false"`
+	Rev   int    `gorm:"primaryKey;autoIncrement:false"`
+	Name  string
+	Notes []Note `gorm:"foreignKey:FolderDoc,FolderRev;references:Doc,Rev"`
+}
+
+type Note struct {
+	ID        uint
+	FolderDoc int
+	FolderRev int
+	Text      string
+}
+
+type Shelf struct {
+	Code  string `gorm:"primaryKey"`
+	Zone  string `gorm:"primaryKey"`
+	Books []Book `gorm:"foreignKey:ShelfCode,ShelfZone;references:Code,Zone"`
+}
+
+type Book struct {
+	ID        uint
+	ShelfCode string
+	ShelfZone string
+}
+
+// self-referential belongs-to used through a join + nested preload
+type Staff struct {
+	ID        uint
+	Name      string
+	ManagerID *uint
+	Manager   *Staff
+	Pets      []StaffPet
+}
+
+type StaffPet struct {
+	ID      uint
+	StaffID uint
+	Name    string
+}
